@@ -319,6 +319,83 @@ def run_idle_case(kind, burst):
     return out
 
 
+def run_deferred_case(kind, burst):
+    """running owner loop; the caller MAKES all calls first and only later awaits what they returned (a call made through the
+    proxy is executed on the owner's loop when it is made, whether and whenever the caller awaits the result)"""
+    import bellows.thread as bt
+    tgt = Target()
+    out = {"calls": [], "owner_errors": 0, "hang": False}
+    main_tid = threading.get_ident()
+
+    async def _tid():
+        return threading.get_ident()
+
+    async def main():
+        elt = bt.EventLoopThread()
+        await elt.start()
+        owner_tid = await elt.run_coroutine_threadsafe(_tid())
+        errs = []
+        elt.loop.call_soon_threadsafe(elt.loop.set_exception_handler, lambda lp, ctx: errs.append(ctx))
+        proxy = bt.ThreadsafeProxy(tgt, elt.loop)
+        issued = []
+        for i in range(burst):
+            try:
+                issued.append(("ret", getattr(proxy, kind)(i)))
+            except TypeError:
+                issued.append(("refused", None))
+            except BaseException as e:  # noqa
+                issued.append(("raised", e))
+        await asyncio.sleep(0.1)
+        await elt.run_coroutine_threadsafe(asyncio.sleep(0.01))
+        out["executed_before_await"] = sorted({tag for _, tag, _ in list(tgt.calls)})
+        results = []
+        for what, r in issued:
+            if what == "refused":
+                results.append(["refused"])
+                continue
+            if what == "raised":
+                results.append(["other", type(r).__name__])
+                continue
+            try:
+                if asyncio.isfuture(r) or asyncio.iscoroutine(r):
+                    r = await asyncio.wait_for(r, 2.0)
+                results.append(["value", r])
+            except asyncio.TimeoutError:
+                results.append(["timeout"])
+            except asyncio.CancelledError:
+                results.append(["cancelled"])
+            except KeyError as e:
+                results.append(["exception", e.args[0]])
+            except BaseException as e:  # noqa
+                results.append(["other", type(e).__name__])
+        await elt.run_coroutine_threadsafe(asyncio.sleep(0.01))
+        out["results"] = results
+        out["owner_tid"], out["main_tid"] = owner_tid, main_tid
+        out["owner_errors"] = sum(1 for c in errs if isinstance(c.get("exception"), TypeError))
+        out["owner_other_errors"] = sum(1 for c in errs if not isinstance(c.get("exception"), TypeError))
+        elt.force_stop()
+        try:
+            await asyncio.wait_for(elt.thread_complete, 5)
+        except asyncio.TimeoutError:
+            out["hang"] = True
+
+    loop = asyncio.new_event_loop()
+    asyncio.set_event_loop(loop)
+    t0 = time.time()
+    try:
+        loop.run_until_complete(asyncio.wait_for(main(), 20))
+    except asyncio.TimeoutError:
+        out["hang"] = True
+    except BaseException as e:  # noqa
+        out["crash"] = repr(e)
+    finally:
+        loop.close()
+    out["wall"] = round(time.time() - t0, 3)
+    out["executed"] = [(k, tag, "owner" if t == out.get("owner_tid") else "caller" if t == main_tid else "other")
+                       for k, tag, t in list(tgt.calls)]
+    return out
+
+
 class Check(PropertyCheck):
     pid = "C20"
     level = "other"
@@ -357,6 +434,9 @@ class Check(PropertyCheck):
             # an owner loop that is alive but not running when the calls are made (started afterwards)
             for b in bursts[:2]:
                 cases.append({"kind": kind, "caller": "other", "state": "idle", "burst": b})
+            # a running owner loop; the calls are all made first and their results awaited later
+            for b in bursts[:2]:
+                cases.append({"kind": kind, "caller": "other", "state": "deferred", "burst": b})
         return cases
 
     def run_impl(self, case):
@@ -364,6 +444,8 @@ class Check(PropertyCheck):
             return run_stop_case(case["pattern"])
         if case["state"] == "idle":
             return run_idle_case(case["kind"], case["burst"])
+        if case["state"] == "deferred":
+            return run_deferred_case(case["kind"], case["burst"])
         return run_case(case["kind"], case["caller"], case["state"], case["burst"], case.get("fetch", "call"))
 
     def describe(self, case):
@@ -463,7 +545,10 @@ class Check(PropertyCheck):
                 return f"plain method call returned something to the caller: {r}"
             if i not in ntags:
                 return f"{kind}: call {i} was never executed on a running owner loop"
-        if state in ("running", "idle") and caller == "other" and kind == "plain_value" and obs["owner_errors"] != burst:
+        if state == "deferred" and kind != "attr" and obs.get("executed_before_await") != list(range(burst)):
+            return (f"{kind}: {burst} calls were made through the proxy from another loop; before the caller awaited anything only "
+                    f"{obs.get('executed_before_await')} had been executed on the owner's loop")
+        if state in ("running", "idle", "deferred") and caller == "other" and kind == "plain_value" and obs["owner_errors"] != burst:
             return f"a plain method returning a value must raise in the owner loop ({obs['owner_errors']} of {burst})"
         return None
 
